@@ -65,27 +65,19 @@ Theorem C06_viewall_value : forall rx am s s' w,
 Proof. exact viewall_returns_view. Qed.
 Print Assumptions C06_viewall_value.
 
-(* Reads are invisible for ever: deleting a read from (or inserting it into) a script changes
-   nothing the rest of the script outputs nor how it ends -- for every continuation that
-   does not change RS or INPUTMODE.  (No hypothesis on the regex engine at all.) *)
+(* Reads are invisible for ever: deleting a read from (or inserting it into) ANY script changes
+   nothing the rest of the script outputs nor how it ends.  Everything the lazy split
+   consults -- FS, its regex, RS, the input mode -- is saved when the record is set (formerly
+   F-C06-5: RS and the input mode were not).  No hypothesis on the regex engine at all. *)
 Theorem C06_reads_invisible : forall rx am s o s' w ops,
   is_read_op rx o = true -> exec_op rx am s o = Ok (s', w) ->
-  forallb (keeps_split_settings rx) ops = true ->
   fst (trace rx am ops s') = fst (trace rx am ops s) /\
   same_end rx am (snd (trace rx am ops s')) (snd (trace rx am ops s)).
 Proof. exact reads_invisible. Qed.
 Print Assumptions C06_reads_invisible.
 
-(* Full statement (any continuation): FALSE on the pinned tree (F-C06-5).  The lazy split
-   consults the CURRENT RS / INPUTMODE (FS is saved with the record, these are not), so with
-   an RS change in the continuation a read is visible:
-   $0="a,b<NL>c" (FS=","), [x=$1;] RS=""; NF gives 2 with the read, 3 without *)
-Theorem C06_reads_invisible_rs_refuted : ~ reads_invisible_full_statement.
-Proof. exact reads_invisible_rs_refuted. Qed.
-Print Assumptions C06_reads_invisible_rs_refuted.
-
-(* reads, FS, OFS and OUTPUTMODE changes leave the current record as it is: in particular a
-   change of FS does not re-split it (FS is saved when the record is set) *)
+(* reads, getline var, and FS, OFS, RS, INPUTMODE, OUTPUTMODE changes leave the current record as
+   it is: in particular a change of FS (or RS, or the input mode) does not re-split it *)
 Theorem C06_pure_ops_keep_view : forall rx am s o s' w,
   is_pure rx o = true -> exec_op rx am s o = Ok (s', w) -> view rx am s' = view rx am s.
 Proof. exact pure_ops_keep_view. Qed.
@@ -230,30 +222,30 @@ Theorem C06_split_literal_no_sep : forall sep s,
 Proof. exact split_lit_no_sep. Qed.
 Print Assumptions C06_split_literal_no_sep.
 
-(* FS = " ": the three laws that determine the split on every chunk list ... *)
+(* FS = " ": the separators are exactly space, tab and newline (formerly F-C06-3: every
+   Unicode White_Space character was one) ... *)
+Theorem C06_split_space_blanks : forall b, is_blank b = true <-> b = 32 \/ b = 9 \/ b = 10.
+Proof. exact is_blank_spec. Qed.
+Print Assumptions C06_split_space_blanks.
+
+(* ... the three laws that determine the split on every record: nothing from nothing; a
+   blank-free non-empty run is one field; a blank between two parts separates them and
+   vanishes (so leading, trailing and repeated blanks are ignored) ... *)
 Theorem C06_split_space_laws :
-  fields_chunks [] [] false = [] /\
-  (forall f, Forall nonspace f -> f <> [] -> fields_chunks f [] false = [f]) /\
-  (forall a sp b, space_chunk sp = true ->
-     fields_chunks (a ++ sp :: b) [] false = fields_chunks a [] false ++ fields_chunks b [] false).
-Proof. exact (conj fields_chunks_nil (conj fields_chunks_one_run fields_chunks_separator)). Qed.
+  fields_bytes [] [] false = [] /\
+  (forall f, Forall nonspace f -> f <> [] -> fields_bytes f [] false = [f]) /\
+  (forall a sp b, is_blank sp = true ->
+     fields_bytes (a ++ sp :: b) [] false = fields_bytes a [] false ++ fields_bytes b [] false).
+Proof. exact (conj fields_bytes_nil (conj fields_bytes_one_run fields_bytes_separator)). Qed.
 Print Assumptions C06_split_space_laws.
 
-(* ... it never yields an empty field ... *)
-Theorem C06_split_space_nonempty : forall s, Forall (fun f => f <> []) (strings_fields s).
-Proof. exact strings_fields_nonempty. Qed.
-Print Assumptions C06_split_space_nonempty.
-
-(* ... and the separators are the blanks of the property text (space, tab, newline) exactly on
-   records without the other Unicode White_Space characters (F-C06-3 otherwise) *)
-Theorem C06_split_space_blank_partial : forall s,
-  Forall (fun c => space_chunk c = blank_chunk c) (runes s) -> strings_fields s = blank_fields s.
-Proof. exact strings_fields_blank_partial. Qed.
-Print Assumptions C06_split_space_blank_partial.
-
-Theorem C06_split_space_blank_refuted : exists s, strings_fields s <> blank_fields s.
-Proof. exact strings_fields_blank_refuted. Qed.
-Print Assumptions C06_split_space_blank_refuted.
+(* ... every field is non-empty and contains no blank, and the fields are the non-blank bytes
+   of the record in order *)
+Theorem C06_split_space_fields_ok : forall s,
+  Forall (fun f => f <> [] /\ Forall nonspace f) (split_blanks s) /\
+  concat (split_blanks s) = filter (fun c => negb (is_blank c)) s.
+Proof. exact (fun s => conj (split_blanks_fields_ok s) (split_blanks_concat s)). Qed.
+Print Assumptions C06_split_space_fields_ok.
 
 (* a regex FS: the fields and the non-empty matches alternate and rebuild the record; empty
    matches are ignored; never a slice out of range *)
@@ -320,6 +312,14 @@ Example C06_ex_getline_field :               (* getline $2 with line "X": $0 = "
   = Ok ([97; 32; 88; 32; 99], [[97]; [88]; [99]], count_value 3).
 Proof. vm_compute. reflexivity. Qed.
 
-Example C06_ex_nbsp :                        (* "a<NBSP>b c" has 3 fields *)
-  strings_fields [97; 194; 160; 98; 32; 99] = [[97]; [98]; [99]].
+Example C06_ex_nbsp :                        (* "a<NBSP>b<VT>c d<CR>" has 2 fields (formerly 4) *)
+  split_blanks [97; 194; 160; 98; 11; 99; 32; 100; 13] = [[97; 194; 160; 98; 11; 99]; [100; 13]].
 Proof. vm_compute. reflexivity. Qed.
+
+Example C06_ex_rs_change :                   (* FS=","; $0="a,b<NL>c"; [x=$1;] RS=""; NF: 2 either way *)
+  let s0 := set_line re (set_fs_plain re [44] xinit) [97; 44; 98; 10; 99] true in
+  (do (s1, _) <- xexec s0 (GetField re (IConst (FFin 1 0)));
+   Ok (fst (trace re Regex.all_matches [SetRS re []; GetNF re] s1)))
+  = Ok (fst (trace re Regex.all_matches [SetRS re []; GetNF re] s0))
+  /\ fst (trace re Regex.all_matches [SetRS re []; GetNF re] s0) = [ONone; ONF (count_value 2)].
+Proof. split; vm_compute; reflexivity. Qed.
